@@ -227,6 +227,8 @@ Ltac specs :=
 
 Lemma api_stop_j s r s' o : api_stop (run f) s = (r, s', o) -> fuel_ok o = true -> J s -> s_stopping s = false -> J s' /\ G2 s s'.
 Proof. intros H Hf HJ Hst. unfold api_stop in H. mi H; fuel_split; use_ih; jdone2. Qed.
+Lemma api_shutdown_j s r s' o : api_shutdown (run f) s = (r, s', o) -> fuel_ok o = true -> J s -> J s' /\ G2 s s'.
+Proof. intros H Hf HJ. unfold api_shutdown in H. mi H; split_state_if; fuel_split; use_ih; jdone2. Qed.
 Lemma handle_commit_error_j fk i a s r s' o :
   handle_commit_error (run f) fk i a s = (r, s', o) -> fuel_ok o = true -> J s -> J s' /\ G2 s s'.
 Proof. intros H Hf HJ. unfold handle_commit_error in H. mi H; fuel_split; use_ih; jdone2. Qed.
@@ -259,6 +261,7 @@ Ltac specs2 :=
   specs;
   repeat match goal with
   | E : api_stop _ _ = _, Hf : fuel_ok _ = true |- _ => let X := fresh "X" in pose proof (api_stop_j _ _ _ _ E Hf) as X; clear E
+  | E : api_shutdown _ _ = _, Hf : fuel_ok _ = true |- _ => let X := fresh "X" in pose proof (api_shutdown_j _ _ _ _ E Hf) as X; clear E
   | E : handle_commit_error _ _ _ _ _ = _, Hf : fuel_ok _ = true |- _ => let X := fresh "X" in pose proof (handle_commit_error_j _ _ _ _ _ _ _ E Hf) as X; clear E
   | E : fire_all _ _ _ _ = _, Hf : fuel_ok _ = true |- _ => let X := fresh "X" in pose proof (fire_all_j _ _ _ _ _ _ E Hf) as X; clear E
   | E : finish_block _ _ = _, Hf : fuel_ok _ = true |- _ => let X := fresh "X" in pose proof (finish_block_j _ _ _ _ E Hf) as X; clear E
@@ -416,10 +419,6 @@ Proof.
        try (intro Hp; destruct (a1 Hp) as [x _]; discriminate x).
 Qed.
 
-Ltac split_state_if := repeat match goal with
-  | |- context [if ?c then set_susp true _ else _] => let E := fresh "E" in destruct c eqn:E
-  | H : context [if ?c then set_susp true _ else _] |- _ => let E := fresh "E" in destruct c eqn:E
-  end.
 Ltac top_ih Hf := fuel_split; repeat match goal with
   | E : run _ ?k ?s1 = (?r, ?s2, ?o1), Hf : fuel_ok ?o1 = true |- _ =>
     let P := fresh "P" in pose proof (run_inv _ _ _ _ _ _ E Hf) as P; unfold Pre2 in P; cbn beta iota in P;
@@ -452,7 +451,7 @@ Proof.
     all: match goal with E : do_fetch _ = _ |- _ => destruct (do_fetch_start _ _ _ _ _ E HJ D) as (HJ1 & Hs1 & Hd1); clear E end.
     all: jt.
   - (* stop *) unfold api_stop in H. mi H; top_ih Hf; jt.
-  - (* shutdown *) unfold flush_pend in H. mi H; split_state_if; top_ih Hf; jt.
+  - (* shutdown *) unfold api_shutdown in H. mi H; split_state_if; top_ih Hf; jt.
   - (* commit *) unfold api_commit in H. mi H; use commit_j; jt.
   - (* offset reply *) unfold handle_offset_response in H. mi H; try (split; assumption).
     all: assert (Hsd : is_some (s_startd s) = true)
